@@ -49,6 +49,8 @@ class Stats:
 
     def __init__(self):
         self.evaluations = 0
+        self.assume_distinct = False      # set by enumerators whose cases are pairwise distinct by construction
+        self.nt_extra = 0                 # non-trivial cases counted without hashing (distinct by construction)
         self.nontrivial: set[int] = set()
         self.samples: list = []
         self._sample_tags: set[str] = set()
@@ -64,7 +66,10 @@ class Stats:
         """Record one oracle execution. `nontrivial` is the property's stated rule evaluated on this case."""
         self.evaluations += 1
         if nontrivial:
-            self.nontrivial.add(case_hash(case))
+            if self.assume_distinct:
+                self.nt_extra += 1
+            else:
+                self.nontrivial.add(case_hash(case))
         for t in tags:
             self.hist[t] += 1
         tag = sample_tag or ("nontrivial" if nontrivial else "trivial")
@@ -78,6 +83,7 @@ class Stats:
 
     def merge(self, other: "Stats"):
         self.evaluations += other.evaluations
+        self.nt_extra += other.nt_extra
         self.nontrivial |= other.nontrivial
         for s in other.samples:
             if len(self.samples) < 8 and s["class"] not in self._sample_tags:
@@ -204,17 +210,22 @@ def hyp_search(strategy, check, stats: Stats, n: int, seed: int, known_match=Non
             raise HarnessError(f"hypothesis: {type(e).__name__}: {e}")
 
 
-def run_cases(cases, check, stats: Stats, known_match=None):
+def run_cases(cases, check, stats: Stats, known_match=None, distinct=False):
     """Deterministic enumeration: run `check` over an iterable of cases, collecting (not raising) violations;
-    stops collecting a clause after its first hit but keeps going for others."""
+    stops collecting a clause after its first hit but keeps going for others. `distinct=True` declares the cases
+    pairwise distinct by construction (an enumeration), so non-trivial ones are counted without hashing."""
     seen: set[str] = set()
     run = guarded(check, stats, known_match, seen)
-    for case in cases:
-        try:
-            run(case)
-        except Violation as v:
-            stats.violations.append({"clause": v.clause, "case": v.case, "detail": v.detail})
-            seen.add(v.clause)
+    stats.assume_distinct = distinct
+    try:
+        for case in cases:
+            try:
+                run(case)
+            except Violation as v:
+                stats.violations.append({"clause": v.clause, "case": v.case, "detail": v.detail})
+                seen.add(v.clause)
+    finally:
+        stats.assume_distinct = False
 
 
 # ----------------------------------------------------------------------------------------------------------
@@ -270,7 +281,8 @@ def write_evidence(prop_id, tier, seed, level, rule, stats: Stats, wall_s, assum
     os.makedirs(os.path.join(OUT_DIR, "evidence"), exist_ok=True)
     cov = {
         "evaluations": stats.evaluations,
-        "distinct_nontrivial": len(stats.nontrivial),
+        # enumerated cases are distinct among themselves; a corpus case may coincide with one of them, so count conservatively
+        "distinct_nontrivial": len(stats.nontrivial) + max(0, stats.nt_extra - stats.hist.get("corpus_cases", 0)),
         "rule": rule,
         "samples": stats.samples,
         "histogram": dict(sorted(stats.hist.items())),
